@@ -50,7 +50,41 @@ def _tile_auth_decision(ex, st, post, result):
     yield ('served_only_if_authorized', z3.Or(full, z3.And(partial, tile_true)),
            "normal return => authorized == 'full', or 'partial' with the layer's tile permission True")
     yield ('full_means_unlimited', z3.BoolVal(True), '')
+    # the limit handed to the renderer honours BOTH limits of the decision: the layer's own and the request-wide one
+    own, glob = _limit_reads(st, res)
+    lim = [e for i, e in T.evs(st, 'load_limited_to')]
+    g = z3.BoolVal(True)
+    for o in own:
+        # the layer has its own limit: the request-wide limit must still be consulted, and applied when present
+        g = z3.And(g, z3.Implies(ex.truth(st, o.result),
+                                 z3.And(z3.BoolVal(bool(glob)),
+                                        z3.Implies(z3.Or([ex.truth(st, x.result) for x in glob] or [z3.BoolVal(False)]), z3.BoolVal(len(lim) >= 2)))))
+    yield ('request_wide_limit_respected', g,
+           "when the decision carries a limited_to for the layer, the request-wide result['limited_to'] is still consulted and, if "
+           'present, applied as well (the tile is limited to the intersection, as the WMS does)')
 
+
+def _limit_reads(st, res):
+    """get('limited_to') events: (on the per-layer permissions, on the callback result itself)"""
+    from pyvc.values import VStr
+    gets = [e for i, e in T.evs(st, 'get') if e.args and isinstance(e.args[0], VStr) and e.args[0].conc() == 'limited_to']
+    glob = [e for e in gets if e.recv is not None and e.recv.t.eq(res.t)]
+    own = [e for e in gets if e not in glob]
+    return own, glob
+
+
+def _s27_class(ex, st):
+    """S27: the layer's own limited_to is set (then the request-wide one is never looked at)"""
+    import z3
+    cb = [e for e in st.trace if e.kwargs and 'query_extent' in e.kwargs and 'environ' in e.kwargs]
+    if not cb:
+        return z3.BoolVal(False)
+    own, glob = _limit_reads(st, cb[-1].result)
+    return z3.Or([ex.truth(st, o.result) for o in own] or [z3.BoolVal(False)])
+
+
+from pyvc.api import finding_class as _finding_class  # noqa
+_finding_class('S27', _s27_class)
 
 AUTH_SPEC = {'get': {'pure': True}, 'load_limited_to': {'pure': True}, 'tile_bbox': {'pure': True}}
 for key in ('mapproxy.service.tile:TileServer.authorize_tile_layer', 'mapproxy.service.wmts:WMTSServer.authorize_tile_layer',
